@@ -141,7 +141,8 @@ fn change_to(ws: &Workspace) -> Change {
 pub fn run_schedule(ctx: &mut Ctx, bytes: &[u8], precomputed: &BTreeMap<(usize, usize, usize), (Workspace, Vec<(u32, u32, Q)>, BTreeMap<String, String>)>) -> Result<bool, Failure> {
     let case = json!({"stream": hex(bytes)});
     let mut c = Choices::new(bytes);
-    let shape = *c.pick(&[(12usize, 20usize), (30, 40), (50, 60)]);
+    // the last shape: few modules of thousands of lines, so that single queries run for 100+ ms
+    let shape = *c.pick(&[(12usize, 20usize), (30, 40), (50, 60), (12, 20), (30, 40), (50, 60), (12, 20), (2, 1500)]);
     let n_steps = 2 + c.below(5);
     let mut v = 0usize;
     let mut edge = c.chance(128);
@@ -173,6 +174,8 @@ pub fn run_schedule(ctx: &mut Ctx, bytes: &[u8], precomputed: &BTreeMap<(usize, 
         match c.below(5) {
             0 => {}
             1 => std::thread::yield_now(),
+            // with the large modules: long enough for a reader to be deep inside a slow query
+            k if shape.1 >= 1000 && c.chance(128) => std::thread::sleep(Duration::from_millis(60 + 40 * k as u64)),
             k => std::thread::sleep(Duration::from_micros(200 * k as u64 * k as u64)),
         }
         if step + 1 < n_steps {
@@ -264,7 +267,7 @@ pub fn run_schedule(ctx: &mut Ctx, bytes: &[u8], precomputed: &BTreeMap<(usize, 
 
 pub fn precompute() -> BTreeMap<(usize, usize, usize), (Workspace, Vec<(u32, u32, Q)>, BTreeMap<String, String>)> {
     let mut m = BTreeMap::new();
-    for shape in [(12usize, 20usize), (30, 40), (50, 60)] {
+    for shape in [(12usize, 20usize), (30, 40), (50, 60), (2, 1500)] {
         for ve in 0..12 {
             let (v, edge) = (ve / 2, ve % 2 == 1);
             let ws = version_ws(v, shape.0, shape.1, edge);
@@ -273,10 +276,14 @@ pub fn precompute() -> BTreeMap<(usize, usize, usize), (Workspace, Vec<(u32, u32
             let an = host.snapshot();
             let mut want = BTreeMap::new();
             for p in &plan {
+                let t0 = Instant::now();
                 let a = match run_query(&an, &p.2, FileId(p.0), p.1) {
                     Ok(a) => a.canon,
                     Err(_) => "<error>".into(),
                 };
+                if std::env::var("VERIF_C12_TIMES").is_ok() && ve == 0 && t0.elapsed().as_millis() >= 20 {
+                    eprintln!("C12 shape {:?}: {} took {} ms", shape, key(p), t0.elapsed().as_millis());
+                }
                 want.insert(key(p), a);
             }
             m.insert((ve, shape.0, shape.1), (ws, plan, want));
@@ -290,7 +297,7 @@ impl Property for C12 {
         "C12"
     }
     fn rule(&self) -> String {
-        "cases: proptest-generated schedules (the stream chooses workspace size 13/31/51 files, 2-5 versions, 1-4 reader threads per version, where each reader starts in its query plan, its yield frequency, and how long the writer waits before applying the next version): one writer thread owns the AnalysisHost and applies version v+1 (every file changes; names and literal types embed v) while real OS reader threads loop over ~60 queries through every entry point of the analysis (workspace-wide references/rename, hover, goto, highlight, completion, signature help, prepare-rename, semantic tokens for the file and for a range, diagnostics, syntax tree) on snapshots of version v. Readers may only stop after they observe Cancelled or after apply_change has returned, so apply_change can only return by cancelling them. Oracle: every reader result is Cancelled or exactly the single-threaded precomputed answer of its snapshot's own version (never another version's, never a truncated set, never a panic); apply_change returns (in-worker watchdog 45 s, confirmed by replay); a snapshot taken after the last change answers for the last version. evaluations = reader query results checked. Non-trivial = schedule in which >= 1 reader was cancelled mid-flight and >= 1 reader completed an answer; distinct by schedule hash.".into()
+        "cases: proptest-generated schedules (the stream chooses workspace size 13/31/51 files or (one schedule in eight) 3 files of 1500 lines each, where the workspace-wide queries run for 100+ ms, 2-5 versions, 1-4 reader threads per version, where each reader starts in its query plan, its yield frequency, and how long the writer waits before applying the next version): one writer thread owns the AnalysisHost and applies version v+1 (every file changes; names and literal types embed v) while real OS reader threads loop over ~60 queries through every entry point of the analysis (workspace-wide references/rename, hover, goto, highlight, completion, signature help, prepare-rename, semantic tokens for the file and for a range, diagnostics, syntax tree) on snapshots of version v. Readers may only stop after they observe Cancelled or after apply_change has returned, so apply_change can only return by cancelling them. Oracle: every reader result is Cancelled or exactly the single-threaded precomputed answer of its snapshot's own version (never another version's, never a truncated set, never a panic); apply_change returns (in-worker watchdog 45 s, confirmed by replay); a snapshot taken after the last change answers for the last version. evaluations = reader query results checked. Non-trivial = schedule in which >= 1 reader was cancelled mid-flight and >= 1 reader completed an answer; distinct by schedule hash.".into()
     }
     fn assumptions(&self) -> Vec<String> {
         vec![
@@ -308,6 +315,9 @@ impl Property for C12 {
         45
     }
     fn max_shards(&self) -> usize {
+        8
+    }
+    fn confirm_attempts(&self) -> usize {
         8
     }
     fn run(&self, ctx: &mut Ctx) {
